@@ -227,11 +227,17 @@ pub fn proxy_v1(src: SocketAddr, dst: SocketAddr) -> Vec<u8> {
 const V2_SIG: [u8; 12] = [0x0D, 0x0A, 0x0D, 0x0A, 0x00, 0x0D, 0x0A, 0x51, 0x55, 0x49, 0x54, 0x0A];
 
 pub fn proxy_v2(src: SocketAddr, dst: SocketAddr) -> Vec<u8> {
+    proxy_v2_transport(src, dst, false)
+}
+
+/// a version 2 header whose transport nibble says STREAM (TCP) or DGRAM (UDP); both announce the addresses
+pub fn proxy_v2_transport(src: SocketAddr, dst: SocketAddr, dgram: bool) -> Vec<u8> {
+    let t = if dgram { 0x02u8 } else { 0x01u8 };
     let mut v = V2_SIG.to_vec();
     v.push(0x21); // version 2, PROXY
     match (src, dst) {
         (SocketAddr::V4(s), SocketAddr::V4(d)) => {
-            v.push(0x11);
+            v.push(0x10 | t);
             v.extend_from_slice(&12u16.to_be_bytes());
             v.extend_from_slice(&s.ip().octets());
             v.extend_from_slice(&d.ip().octets());
@@ -243,7 +249,7 @@ pub fn proxy_v2(src: SocketAddr, dst: SocketAddr) -> Vec<u8> {
                 IpAddr::V6(x) => x,
                 IpAddr::V4(x) => x.to_ipv6_mapped(),
             };
-            v.push(0x21);
+            v.push(0x20 | t);
             v.extend_from_slice(&36u16.to_be_bytes());
             v.extend_from_slice(&to6(s).octets());
             v.extend_from_slice(&to6(d).octets());
